@@ -41,6 +41,17 @@ pow2 = z3.Function("pow2", IntS, IntS)
 b64 = z3.Function("b64", BytesS, BytesS)
 
 
+typ = z3.Function("typ", IntS, IntS)  # dynamic class id of an object reference (immutable)
+CLASS_IDS: dict = {}
+
+
+def cid(name: str) -> int:
+    """integer id of a dotted class name (stable within one process)"""
+    if name not in CLASS_IDS:
+        CLASS_IDS[name] = 1000 + len(CLASS_IDS)
+    return CLASS_IDS[name]
+
+
 def bytes_lit(b: bytes):
     if len(b) == 0:
         return z3.Empty(BytesS)
